@@ -202,10 +202,16 @@ def run_one(run):
 
     if not verify(obj, "construct"):
         return
+    def snapshot(o):
+        import copy as _copy
+
+        return (_copy.deepcopy(dict(o.metadata)), [axis_rec_of(ax, o.shape[i]) for i, ax in enumerate(o.ensemble_axes_metadata)], tuple(o.shape))
+
     for op in prog["ops"]:
         r = op["r"]
         n_ens = model["arr"].ndim - nb
         name = op["op"]
+        receiver, before = obj, snapshot(obj)
         try:
             if name == "index":
                 if n_ens == 0:
@@ -410,6 +416,16 @@ def run_one(run):
                         f"{name} {op['r']} on {t} shape {model['arr'].shape} raised {type(e).__name__}: {e} at {tb(e)}")
             return
         applied += 1
+        # the receiver of the operation still describes itself: an operation returns a new object, the old one (which the caller may
+        # select from again) keeps its metadata, axes and shape
+        if receiver is not obj:
+            after = snapshot(receiver)
+            if not oracle.values_equal(after[0], before[0]) or after[1] != before[1] or after[2] != before[2]:
+                what = "metadata" if not oracle.values_equal(after[0], before[0]) else "axes"
+                run.violate("receiver-keeps-its-description", sig(what, name),
+                            f"{name} changed the {what} of the object it was applied to: {before[0] if what == 'metadata' else before[1]} -> "
+                            f"{after[0] if what == 'metadata' else after[1]}")
+                return
         if not verify(obj, name):
             return
     run.nontrivial = applied >= 2
